@@ -7,6 +7,7 @@
   parser against expat, the namespace table against real histories.
 -/
 import OdfModel.Props.C14
+import OdfModel.Xml.Encodable
 namespace OdfModel.Props.C01
 open OdfModel OdfModel.Xml OdfModel.Spec OdfModel.Ns
 
@@ -78,5 +79,14 @@ theorem emitted_wf_after_any_history (nss : List Str) (hs : ∀ ns ∈ nss, StrO
     ∃ t, parseDoc (render (run initial nss).seen (.elem q attrs kids)) = some t :=
   emitted_wf _ q attrs kids (C14.tableOK_reachable nss (fun ns h => (hs ns h).1))
     (C14.nsClean_reachable nss (fun ns h => (hs ns h).2)) hu'
+
+/-- **C01 (encodable)**: every character of an emitted stream is an XML 1.0 `Char`; in particular no lone surrogate is
+    ever written, so `.encode('utf-8')` in xml()/contentxml()/save() cannot raise, whatever strings the tree holds. -/
+theorem emitted_encodable (tbl : NsTable) (q : QName) (attrs : List (QName × Str)) (kids : Forest)
+    (ht : TableOK tbl) (hu : TreeOK tbl (.elem q attrs kids)) :
+    ∀ c ∈ render tbl (.elem q attrs kids), isXmlChar c = true ∧ ¬ (0xD800 ≤ c ∧ c ≤ 0xDFFF) := by
+  intro c hc
+  have h := allXml_render tbl q attrs kids ht hu c hc
+  exact ⟨h, isXmlChar_not_surrogate c h⟩
 
 end OdfModel.Props.C01
